@@ -17,6 +17,7 @@ struct MockReq
     int value = 0;
     int complete = 0, polls = 0, idx = 0;
     int held = 0;    // harness-controlled: cannot complete yet (no deviation involved)
+    int pending_polls = 0;    // harness-controlled: the first polls find the request pending (no deviation involved)
 };
 static MockReq g_reqs[48];
 static int g_nreq = 0;
@@ -36,6 +37,7 @@ static bool mock_poll(MockReq* m)
 {
     ++m->polls;
     if (m->held) return false;
+    if (m->pending_polls > 0) { --m->pending_polls; return false; }
     int pending = pmc_choose(2, 1);    // alternative 1 = still pending, costs one deviation
     if (pending) { ++g_pending_answers; return false; }
     *m->buffer = m->value;             // the transfer completes: data becomes visible now
@@ -216,21 +218,68 @@ static void many_prog()
     pmc_outcome("mode=%d", mode);
 }
 
+// detached request: nothing but the MPI request itself keeps the runtime busy (the launching task ends
+// right after start_detached); pika::wait() must not return before the continuation has run
+static void detached_prog()
+{
+    static St s;
+    s = St{};
+    g = &s;
+    g_nreq = 0;
+    g_pending_answers = 0;
+    int mode = modes_all[pmc_choose(32, 0)];
+    int hold = pmc_choose(2, 0);    // 1: the first two polls find the request pending (it does not complete eagerly; no deviation)
+    s.nreq = 1;
+    static int buf[4];
+    for (int i = 0; i < 4; ++i) buf[i] = -1;
+    static int cont_entered, g_hold;
+    cont_entered = 0;
+    g_hold = hold;
+    pmc_on_stuck(on_stuck);
+    rt::config c;
+    c.workers = 2;
+    rt::start(c);
+    mpi::detail::set_completion_mode(mode);
+    {
+        mpi::enable_polling ep(mpi::exception_mode::no_handler);
+        rt::spawn([&] {
+            auto snd = mpi::transform_mpi(ex::just(&buf[0], 100), [](int* b, int v, MPI_Request* r) { *r = mock_start(b, v); ((MockReq*) *r)->pending_polls = g_hold ? 2 : 0; return MPI_SUCCESS; });
+            ex::start_detached(std::move(snd) | ex::then([]() {
+                cont_entered = 1;
+                pmc_point("continuation-entered");
+                for (int k = 0; k < g_nreq; ++k)
+                    if (g_reqs[k].buffer == &buf[0]) g->complete_at_signal[0] = g_reqs[k].complete;
+                g->ok_data[0] = buf[0] == 100;
+                ++g->signalled[0];
+                pmc_progress();
+            }));
+            ++g->finished;
+        });
+        pika::wait();
+        PMC_ASSERT(s.signalled[0] == 1, "wait-returned-early", "pika::wait() returned while the detached request was still in flight (continuation entered %d, finished %d, mock complete=%d, mode %d)", cont_entered, s.signalled[0], g_nreq > 0 ? g_reqs[0].complete : -1, mode);
+    }
+    rt::stop();
+    PMC_ASSERT(s.signalled[0] == 1, "signal-count", "receiver of the detached request signalled %d times (mode %d)", s.signalled[0], mode);
+    PMC_ASSERT(s.complete_at_signal[0] == 1 && s.ok_data[0] == 1, "signalled-before-complete", "detached request: complete-at-signal %d, data ok %d (mode %d)", s.complete_at_signal[0], s.ok_data[0], mode);
+    pmc_outcome("mode=%d hold=%d", mode, hold);
+}
+
 int main(int argc, char** argv)
 {
-    static const char* sites = "mpi_polling|transform_mpi|mpi_helpers";
+    static const char* sites = "mpi_polling|transform_mpi|mpi_helpers|global_activity_count";
     static const char* focus = "F-site: all atomics of async_mpi (polling request vector lock, in-flight counters, completion hand-off); data choices: every poll answer of the mock MPI (pending costs one deviation); F-addr: task state words";
     static const pmc_spec specs[] = {
-        {"one_request", mpi_prog<1, 0>, 1, 2, 0.5, 0.3, 1, focus, sites, nullptr},
-        {"one_request_polling_pool", mpi_prog<1, 1>, 1, 1, 0.3, 0.2, 1, focus, sites, nullptr},
-        {"two_requests", mpi_prog<2, 0>, 1, 2, 0.2, 0.4, 1, focus, sites, nullptr},
+        {"one_request", mpi_prog<1, 0>, 1, 2, 0.35, 0.25, 1, focus, sites, nullptr},
+        {"one_request_polling_pool", mpi_prog<1, 1>, 1, 1, 0.25, 0.15, 1, focus, sites, nullptr},
+        {"two_requests", mpi_prog<2, 0>, 1, 2, 0.2, 0.3, 1, focus, sites, nullptr},
+        {"detached_request", detached_prog, 1, 2, 0.2, 0.2, 1, focus, sites, nullptr},
         {"many_requests_34", many_prog<34>, 0, 1, 0.1, 0.2, 0, "34 outstanding requests, the first 33 held back until the last one has completed (chunked testing of the polling vector)", sites, nullptr},
     };
     static const char* assumptions[] = {"sequentially consistent interleavings only", "MPI is mocked: requests created by the harness, MPI_Test/Testany/Testsome answered by the explorer; real OpenMPI timing is not exercised",
         "completion modes 0-31 (the MPIX continuation modes need an MPI extension that is not present)"};
     pmc_config cfg{};
     cfg.property_id = "C20";
-    cfg.rule = "completion mode (all 32 flag combinations, data choice) x 1-2 outstanding requests x polling pool on/off x every poll answer of the mock MPI (pending/complete) x all schedules within the deviation bound";
+    cfg.rule = "completion mode (all 32 flag combinations, data choice) x 1-2 outstanding requests (awaited by tasks, or detached with pika::wait as the only waiter) x polling pool on/off x every poll answer of the mock MPI (pending/complete) x all schedules within the deviation bound";
     cfg.assumptions = assumptions;
     cfg.n_assumptions = 3;
     cfg.warmup = rt::warmup;
